@@ -129,10 +129,12 @@ def run(repo, rep):
     itm = S.interp(repo, 'builder', {'build_fncall': S.p_build_fncall})
     for na in range(0, 3):
         for nk in range(0, 3):
-            for kwform in ('pairs', 'dict'):
+            for kwform in ('pairs', 'dict', 'iterator'):
                 args = TupleV([Sym('A%d' % i) for i in range(na)])
                 pairs = [TupleV([Const('K%d' % i), Sym('V%d' % i)]) for i in range(nk)]
-                kwargs = ListV(pairs) if kwform == 'pairs' else ValueV('kw', TypeV('dict'), [Const('K%d' % i) for i in range(nk)])
+                # a list of pairs, a dict, or a one-shot iterator of pairs (zip(fields, values), a generator): what is read from it is gone
+                kwargs = ListV(pairs) if kwform == 'pairs' else ListV(pairs, lazy=True) if kwform == 'iterator' else \
+                    ValueV('kw', TypeV('dict'), [Const('K%d' % i) for i in range(nk)])
                 fnsym = Sym('F', 'callable')
                 try:
                     prs = itm.explore(pca, [CtxV(), fnsym], {'args': args, 'kwargs': kwargs})
@@ -171,7 +173,7 @@ def run(repo, rep):
                     hugged = t.hug
                     got_args = [(x.prov, x.ctx) for x in t.args if isinstance(x, D.Sub)]
                     want_args = ['A%d' % i for i in range(na)]
-                    if kwform == 'pairs':
+                    if kwform in ('pairs', 'iterator'):
                         want_kw = [("'K%d'" % i, 'V%d' % i) for i in range(nk)]
                     else:
                         want_kw = [("'K%d'" % i, "kw['K%d']" % i) for i in range(nk)]
